@@ -595,8 +595,15 @@ func (c *Client) Redeliver(i int) bool {
 	// only facts that are still true are redelivered: a validating node never
 	// announces a transaction in a block that is not on its best chain
 	if n.Block != nil {
+		// the block must be on the chain the CLIENT has notified so far (an
+		// ancestor of, or equal to, its best block) — not merely on the node's
+		// best chain, which the client may not have announced yet
 		b := c.node.BlockByHash(&n.Block.Hash)
-		if b == nil || !c.node.OnBest(b) || b.Height > c.best.Height {
+		cur := c.node.BlockByHash(&c.best.Hash)
+		for cur != nil && b != nil && cur.Height > b.Height {
+			cur = c.node.BlockByHash(&cur.Msg.Header.PrevBlock)
+		}
+		if b == nil || cur == nil || cur.Hash != b.Hash {
 			c.mu.Unlock()
 			return false
 		}
